@@ -85,7 +85,14 @@ def via_builder(prog, seed=None, native=None):
     def emit(bb, s, params, must):
         k = s[0]
         if k == "gate":
-            bb.gate(s[1], *[obj_arg(a, params, must) for a in s[2:]])
+            args = [obj_arg(a, params, must) for a in s[2:]]
+            # no_duplicate=True only drops a gate equal to the one right before it: harmless whenever that one differs
+            nd = seed is not None and rng.random() < 0.3 and bb.expression[-1] != ("gate", s[1], *args)
+            if nd:
+                choices.append("no-duplicate-flag")
+                bb.gate(s[1], *args, no_duplicate=True)
+            else:
+                bb.gate(s[1], *args)
         elif k in ("sequential_block", "parallel_block"):
             nb = bb.block(parallel=(k == "parallel_block"))
             for x in s[1:]:
